@@ -83,6 +83,16 @@ through this map — `P/S.pyi` next to a sub-package `P/S/__init__.py`, `P/S/__i
 by a later Script only if that listing is taken again: `Gen.C09.cfg.stubListingCached = false`
 (no memoising decorator on `_create_stub_map` / `_merge_create_stub_map`). -/
 
+/-- **The helper-side lookup functions keep nothing between two requests.**  The long-lived helper
+answers `get_module_info` / `_get_source` / `_find_module` from `jedi/inference/compiled/subprocess/
+functions.py`; the translator lists everything that module could remember from one request to the
+next (module-level containers, `global` statements, memo decorators, mutable default arguments,
+attributes hung on functions) and the list is empty: what the helper ships is read from the disk
+at the time of the request, which is what the model's `find` / file reads assume.  A per-path
+source memo or a finder memo (however it is revalidated) makes this statement false and the build
+break.  (importlib's own directory listing is outside jedi: finding C09-finder-stale-directory-listing.) -/
+theorem helper_lookup_is_stateless : JediModel.Gen.C09.helperModuleState = [] := by decide
+
 /-- **stub_listing_fresh.**  After EVERY history (no hypothesis on stamps), the directory listing the
 stub lookup consults is the file system as it is now — there is no per-process listing to go stale.
 Breaks (does not type-check) as soon as the translator finds a memo decorator. -/
